@@ -749,7 +749,9 @@ func (w *World) stampCommon(m *MsgSpec, sp *SPNode, s *Sent, kind string, f *req
 	switch m.DestMode {
 	case "", "advertised", "absent":
 	default:
-		w.notConformant(s, "destination "+m.DestMode)
+		if !m.Probe {
+			w.notConformant(s, "destination "+m.DestMode)
+		}
 	}
 	f.Issuer, f.IssuerAbsent = w.issuerText(m, sp)
 	s.IssuerSent = f.Issuer
@@ -835,6 +837,9 @@ func (w *World) buildSLO(t *Task, m *MsgSpec, sp *SPNode, s *Sent) error {
 // encodeFrontChannel signs (if asked), tampers and encodes a front-channel request for its binding.
 func (w *World) encodeFrontChannel(t *Task, m *MsgSpec, sp *SPNode, s *Sent, xmlText string, kind string) error {
 	s.Path = w.IDPModel.Route(kind)
+	if m.PathOverride != "" {
+		s.Path = m.PathOverride
+	}
 	alg := sigAlgURI(m.Sign)
 	kp := w.signKey(m, sp)
 	s.Relay, s.HasRelay = m.RelayState, m.HasRelay || m.RelayState != ""
@@ -1020,6 +1025,9 @@ func (w *World) buildAttrQ(t *Task, m *MsgSpec, sp *SPNode, s *Sent) error {
 		}
 	}
 	s.Method, s.Path, s.ContentType = "POST", w.IDPModel.Route(EPAttr), "text/xml; charset=utf-8"
+	if m.PathOverride != "" {
+		s.Path = m.PathOverride
+	}
 	s.Body = []byte(body)
 	return nil
 }
